@@ -30,7 +30,7 @@ ASSUMPTIONS = [
     "virtual time: delayed rows are delivered only when no undelayed row is pending (no wait budget is exhausted artificially)",
     "duplicates arise only the way the queue produces them (ack lost / lock lapsed), never by cloning rows",
 ]
-MIN_OBS = {"redeliveries": {"quick": 50, "thorough": 500}, "reordered_runs": {"quick": 50, "thorough": 500}, "interleaved_runs": {"quick": 60, "thorough": 800}}
+MIN_OBS = {"redeliveries": {"quick": 50, "thorough": 500}, "reordered_runs": {"quick": 50, "thorough": 500}, "interleaved_runs": {"quick": 60, "thorough": 800}, "second_worker_got_the_row": {"quick": 50, "thorough": 100}}
 TIMEOUT = {"quick": 600, "thorough": 3000}
 
 HOLD_TYPES = ["StartStage", "CompleteStage", "CompleteTask", "RunTask", "StartTask", "JumpToStage", "CompleteWorkflow"]
@@ -61,6 +61,9 @@ def gen_cases(tier: str, seed: int) -> list[dict]:
             cases.append({"kind": "exhaustive", "spec_i": i, "cut": cut, "depth": depth, "seed": seed})
     for i in range(80 if tier == "quick" else 1000):
         cases.append({"kind": "race", "spec_i": i, "seed": seed})
+    for sp in range(4):
+        for nth in ((0, 1) if tier == "quick" else (0, 1, 2, 3)):
+            cases.append({"kind": "relapse", "spec": sp, "nth": nth, "seed": seed})
     return cases
 
 
@@ -402,9 +405,105 @@ def _race(case: dict) -> dict:
     return {"violations": uniq, "obs": dict(obs), "keys": [f"race:{spec['name']}:{info['trace_hash'][:6]}"]}
 
 
+def _relapse(case: dict) -> dict:
+    """One RunTask is being handled by worker W0; at EVERY statement boundary of that handling (also after its
+    result commit, before the processor's own mark / ack) the row's lock lapses and a second worker polls it.
+    A second execution is the step in flight as long as that poll happened before W0 recorded the result; polled
+    after it, the delivery must be recognised as done."""
+    import json as _json
+    import os
+
+    from .. import interleave as il
+    from ..world import World
+
+    spec = [specs.chain(2), specs.multitask(), specs.polling(1), specs.diamond()][case["spec"]]
+    w = World()
+    cut = None
+    try:
+        w.submit(spec)
+        seen = 0
+        for _ in range(200):
+            rows = w.rows()
+            if not rows:
+                break
+            ready = w.eligible(rows)
+            if ready and ready[0]["type"] == "RunTask":
+                if seen == case["nth"]:
+                    path = os.path.join(il.env.scratch_dir(), f"cut-{os.getpid()}-{random.randrange(1 << 40)}.db")
+                    w.store._get_connection().commit()
+                    w.copy_db(path)
+                    cut = (path, ready[0]["id"], _json.loads(ready[0]["payload"]).get("task_id"))
+                    break
+                seen += 1
+            w.deliver(ready[0]["id"])
+    finally:
+        w.close()
+    obs: Counter = Counter()
+    keys: set = set()
+    violations = []
+    if cut is None:
+        return {"violations": [], "obs": {"cut_point_not_reached": 1}, "keys": []}
+    db, row, task_id = cut
+    FAR = "2999-01-01T00:00:00+00:00"
+    try:
+        na = il.solo_length(db, row)
+        for s1 in range(0, na + 1):
+            polled: dict = {}
+
+            def mk(world, _polled=polled):
+                def body() -> None:
+                    c = world.queue._get_connection()
+                    try:
+                        c.execute("UPDATE queue_messages SET locked_until = NULL WHERE id = ?", (row,))
+                        c.execute("UPDATE queue_messages SET locked_until = ? WHERE id != ? AND locked_until IS NULL", (FAR, row))
+                        c.commit()
+                        _polled["pre_seq"] = world.max_seq()
+                        msg = world.queue.poll_one()
+                        _polled["got"] = msg is not None
+                        if msg is not None:
+                            il.worker_body(world, msg)()
+                    finally:
+                        try:
+                            c.execute("UPDATE queue_messages SET locked_until = NULL WHERE locked_until = ?", (FAR,))
+                            c.commit()
+                        except Exception:
+                            c.rollback()
+
+                return body
+
+            run, info = il.run_pair(db, [row], il.Segments([("W0", s1), ("W9", 10**6), ("W0", 10**6)]), extra_bodies={"W9": mk})
+            obs["evaluations"] += 1
+            if run is None:
+                obs["scheduler_watchdog"] += 1
+                continue
+            obs["lock_lapsed_during_handling"] += 1
+            keys.add(f"relapse:{spec['name']}:{case['nth']}:{s1}")
+            pushes = [a["seq"] for a in run.audit if a["kind"] == "queue" and a["op"] == "ins" and a["c"] == "CompleteTask" and _json.loads(a["d"]).get("task_id") == task_id and a["seq"] > getattr(run, "race_start_seq", 0)]
+            tl = oracles.Timeline(run.audit)
+            tid_key = next(((m["owner"], m["name"]) for eid, m in tl.meta.items() if eid == task_id), None)
+            execs = [r for r in run.ledger if tid_key and r["stage_id"] == tid_key[0] and f"t{r['task']}" == tid_key[1]]
+            if polled.get("got"):
+                obs["second_worker_got_the_row"] += 1
+            if pushes and polled.get("got") and polled.get("pre_seq", 0) >= pushes[0] and len(execs) >= 2:
+                violations.append(viol("C02/executed-again-after-result-recorded", f"{spec['name']}: second worker polled the RunTask at seq {polled['pre_seq']}, after the first worker had recorded the result (CompleteTask pushed at seq {pushes[0]}), and executed the task again ({len(execs)} executions); W0 was preempted after {s1} of {na} statements"))
+            v2, _ = effect_oracles(spec, run)
+            violations += [x for x in v2 if "handled-although-marked" not in x["sig"]]
+    finally:
+        os.unlink(db)
+    seen_s = set()
+    uniq = []
+    for x in violations:
+        if x["sig"] not in seen_s:
+            seen_s.add(x["sig"])
+            uniq.append(x)
+    return {"violations": uniq, "obs": dict(obs), "keys": sorted(keys)}
+
+
 def run_case(case: dict) -> dict:
     if case.get("kind") == "exhaustive":
         return _exhaustive(case)
+    if case.get("kind") == "relapse":
+        return _relapse(case)
     if case.get("kind") == "race":
         return _race(case)
     spec = _spec_for(case["spec_i"], case["seed"])
